@@ -384,3 +384,28 @@ pub fn puny_boundary_payloads() -> Vec<Vec<u8>> {
     }
     v
 }
+
+/// Host texts for sampling the host / IDNA premises (HostOK, IdnaOK) on the implementation: every ASCII value raw,
+/// percent-encoded and as its fullwidth compatibility form, alone, next to a non-ASCII letter on either side, and
+/// inside an xn-- label.  Fixed (seed-independent).
+pub fn host_premise_pool() -> Vec<String> {
+    let mut hosts: Vec<String> = Vec::new();
+    for c in 0u8..=0x7f {
+        let raw = (c as char).to_string();
+        let pct = format!("%{:02X}", c);
+        let mut forms = vec![raw, pct];
+        if (0x21..=0x7e).contains(&c) {
+            forms.push(char::from_u32(0xFF00 + (c as u32 - 0x20)).unwrap().to_string());
+        }
+        for f in &forms {
+            hosts.push(format!("a{}b", f));
+            hosts.push(format!("\u{e9}{}", f));
+            hosts.push(format!("{}\u{e9}", f));
+            hosts.push(format!("caf\u{e9}{}.example", f));
+            hosts.push(format!("x.{}\u{4e2d}a", f));
+            hosts.push(format!("xn--caf{}-dpa.example", f));
+            hosts.push(format!("XN--{}-1ga", f));
+        }
+    }
+    hosts
+}
